@@ -8,7 +8,7 @@
    The end-to-end sentence is explored differentially by harness/h13 (one live database against a
    fresh one per step). *)
 From Coq Require Import List NArith Bool Arith.
-From C13 Require Import RedIds IdsProofs.
+From C13 Require Import RedIds IdsProofs Memo MemoProofs.
 Import ListNotations.
 
 (* distinct nodes of one tree have distinct ids (for every per-kind key-field table kr) *)
@@ -21,7 +21,7 @@ Proof. exact ids_injective. Qed.
    inside p unchanged (ancestors, siblings, all other subtrees, and the replaced root itself) *)
 Theorem C13_ids_edit_stable : forall (kr : krange) (g : green) (p : pos) (g' old g2 : green),
   subtree g p = Some old ->
-  kind g' = kind old -> key kr g' = key kr old ->
+  kind g' = kind old -> RedIds.key kr g' = RedIds.key kr old ->
   avoids_keys kr g p = true ->
   replace_at g p g' = Some g2 ->
   forall q, ~ strictly_inside p q -> id_at kr g2 q = id_at kr g q.
@@ -58,6 +58,56 @@ Example C13_example :
   /\ offset_at ex_kr ex_tree' [2; 1]%nat = Some 12%N.
 Proof. vm_compute. repeat split; reflexivity. Qed.
 
+(* the verifying-trace memo engine (Memo.v: revisions, verified_at / changed_at, deep verification of
+   the recorded dependencies in order, back-dating when the recomputed value is equal): for every
+   value type, every family of query bodies (pure programs reading inputs and other queries through
+   the tracked get), every history of input sets and queries, every answer the engine gives is the
+   from-scratch value of the query under the inputs current at that moment.  (An answer exists
+   whenever the fuel suffices; a cyclic query runs out of fuel for every fuel.) *)
+Theorem C13_memo_correct :
+  forall (V : Type) (veq : V -> V -> bool) (body : nat -> prog V),
+    (forall a b, veq a b = true -> a = b) ->
+    forall (d : V) (fuel : nat) (ops : list (op V)) (outs : list ((nat -> V) * Memo.key * V)),
+      run_ops V veq body fuel (init V d) ops = Some outs ->
+      Forall (fun o => Eval V body (fst (fst o)) (snd (fst o)) (snd o)) outs.
+Proof. exact memo_correct. Qed.
+
+(* non-vacuity of the memo theorem.  Queries over nat: q0 = parity of input 0; q1 = q0 + input 1;
+   q(n+2) = "absolute offset" of node n in a chain: q2 = input 2, q(n+3) = q(n+2) + input (n+3).
+   The history sets inputs, asks, changes input 0 without changing its parity (q0 is re-executed
+   and back-dated, q1 is only re-verified), changes it again, shifts an offset_in_parent. *)
+Definition ex_body (q : nat) : prog nat :=
+  match q with
+  | 0 => Get (KIn 0) (fun x => Ret (Nat.modulo x 2))
+  | 1 => Get (KQ 0) (fun p => Get (KIn 1) (fun y => Ret (p + y)))
+  | 2 => Get (KIn 2) (fun x => Ret x)
+  | S (S (S n)) => Get (KQ (S (S n))) (fun a => Get (KIn (S (S (S n)))) (fun o => Ret (a + o)))
+  end.
+Definition ex_ops : list (op nat) :=
+  [OSet 0 2; OSet 1 5; OGet (KQ 1); OSet 0 4; OGet (KQ 1); OSet 0 3; OGet (KQ 1);
+   OSet 2 10; OSet 3 1; OSet 4 2; OSet 5 3; OGet (KQ 5); OSet 3 7; OGet (KQ 5); OGet (KQ 4); OGet (KQ 1)].
+
+Example C13_memo_example :
+  option_map (map (fun o => (snd (fst o), snd o))) (run_ops nat Nat.eqb ex_body 40 (init nat 0) ex_ops)
+  = Some [(KQ 1, 5); (KQ 1, 5); (KQ 1, 6); (KQ 5, 16); (KQ 5, 22); (KQ 4, 19); (KQ 1, 6)]
+  /\ (* after the parity-preserving change q0 was re-executed and back-dated to revision 1, and q1
+        was re-verified (verified_at = 3) without being re-executed (changed_at = 2) *)
+     (match run_ops nat Nat.eqb ex_body 40 (init nat 0) [OSet 0 2; OSet 1 5; OGet (KQ 1); OSet 0 4] with
+      | Some _ =>
+          match fetch nat Nat.eqb ex_body 40
+                  (set_input nat
+                     (match fetch nat Nat.eqb ex_body 40 (set_input nat (set_input nat (init nat 0) 0 2) 1 5) (KQ 1)
+                      with Some (_, _, st) => st | None => init nat 0 end) 0 4) (KQ 1) with
+          | Some (v, _, st) =>
+              (v, option_map (fun m => (m_verified m, m_changed m)) (memos st 0),
+                  option_map (fun m => (m_verified m, m_changed m)) (memos st 1))
+          | None => (0, None, None)
+          end
+      | None => (0, None, None)
+      end) = (5, Some (3, 1), Some (3, 2)).
+Proof. vm_compute. split; reflexivity. Qed.
+
 Print Assumptions C13_ids_injective.
 Print Assumptions C13_ids_edit_stable.
 Print Assumptions C13_offsets_current.
+Print Assumptions C13_memo_correct.
